@@ -434,23 +434,6 @@ theorem maskState_get (st : List Bool) (m : Slots) (v : Nat) (hv : v < st.length
   simp only [Option.map_some]
   cases st[v] <;> cases (firstIn v m).getD false <;> rfl
 
-theorem propagate_length : ∀ (s : Slots) (st st' : List Bool), propagate st s = some st' →
-    st'.length = st.length
-  | [], st, st', h => by simp only [propagate, Option.some.injEq] at h; rw [h]
-  | none :: t, st, st', h => propagate_length t st st' (by simpa [propagate] using h)
-  | some o :: t, st, st', h => by
-    simp only [propagate] at h
-    cases ha : applyOp st o with
-    | none => rw [ha] at h; cases h
-    | some st1 =>
-      rw [ha] at h
-      have := propagate_length t st1 st' h
-      simp only [applyOp] at ha
-      split at ha
-      · simp only [Option.some.injEq] at ha
-        rw [this, ← ha, writeVars_length]
-      · cases ha
-
 /-- **(ii)** flipping a leg set that is closed under the adjacency of the leg graph and contains no
 leg of a (non-edge) op of flip weight 0 is a cluster move -/
 theorem flipConfig_clusterMove (fr : SkOp → Bool) (D : Nat → Bool) (c : Config) (hshape : ShapeOk c)
